@@ -3,6 +3,7 @@ package props
 import (
 	"bytes"
 	gocontext "context"
+	"encoding/json"
 	"fmt"
 	"strings"
 	"sync"
@@ -10,6 +11,7 @@ import (
 	"time"
 
 	"github.com/orda-io/orda/client/pkg/model"
+	"github.com/orda-io/orda/client/pkg/orda"
 	"go.mongodb.org/mongo-driver/bson"
 	"pgregory.net/rapid"
 	"verif/cluster"
@@ -792,5 +794,157 @@ func TestC12Abandoned(t *testing.T) {
 		}
 		cancelled := held && mode != "no-cancel"
 		col.Case(cancelled, fmt.Sprint(kind, holdAt, mode, dep, nops, nc, order), []string{"mode=" + mode, fmt.Sprintf("held=%v", held), "held-command=" + heldVerb, dep, fmt.Sprintf("later-refusals=%d", refusals), fmt.Sprintf("abandoned-rest-patch=%v", viaPatch), fmt.Sprintf("waiters-that-give-up=%d", len(waiters))}, func() interface{} { return c.j.Header })
+	})
+}
+
+// TestC12ConcurrentPatches: several REST patches of ONE document at the same moment. One at a time, each patch
+// makes the document equal to its target, so whatever the order the document ends as the target of the patch
+// that came last - never as a mixture.
+func TestC12ConcurrentPatches(t *testing.T) {
+	col := stats.New("C12", t.Name(),
+		"a document key that is absent / exists (created by a client with a few operations, snapshot stored), on a drawn deployment; 1-3 rounds of 2-4 simultaneous PatchDocument calls (separate goroutines, each with its own request context; half of the calls over the HTTP route) with distinct generated targets; a subscribed client syncs after each round; "+
+			"oracle: every call is answered without error and with its own target; after each round the server's rebuild of the document equals ONE of the round's targets, the subscribed client converges to it, one datatype document exists for the key, log invariants hold; non-trivial = >=3 patches in a round on an existing document; distinct = hash of the targets")
+	col.Assume(deploymentNote)
+	checkProp(t, "C12", col, func(c *caseCtx) {
+		rt := c.rt
+		idseed := rapid.Uint64Range(1, 1<<40).Draw(rt, "idseed")
+		dep := drawDeployment(rt)
+		w, err := newL1World(idseed, []sim.Kind{sim.Document})
+		if err != nil {
+			c.failf("HARNESS-ERROR: %v", err)
+		}
+		defer w.close()
+		patchesHappened = true
+		k := w.keys[0]
+		exists := rapid.Bool().Draw(rt, "document_exists")
+		c.j.Header = map[string]interface{}{"id_seed": idseed, "deployment": dep, "exists": exists}
+		var cl *l1Client
+		if exists {
+			cl, err = w.addClient()
+			if err != nil {
+				c.failf("HARNESS-ERROR: %v", err)
+			}
+			d := w.open(cl, k, "create")
+			for i := 0; i < 3; i++ {
+				sim.Exec(sim.Document, d.dt, c06CheapCall(sim.Document, i))
+			}
+			if ex := w.syncClient(cl); ex == nil || exchangeProblem(cl, ex) != nil {
+				c.failf("HARNESS-ERROR: setup sync failed")
+			}
+			w.env.WaitBackground(3 * time.Second)
+		}
+		many := false
+		var canon strings.Builder
+		for round := rapid.IntRange(1, 3).Draw(rt, "rounds"); round > 0; round-- {
+			n := rapid.IntRange(2, 4).Draw(rt, "patches")
+			var targets []string
+			for i := 0; i < n; i++ {
+				obj := c19Object(rt, fmt.Sprintf("r%d.t%d", round, i), 2)
+				obj["who"] = fmt.Sprintf("r%d.p%d", round, i) // distinct targets
+				b, _ := json.Marshal(obj)
+				targets = append(targets, string(b))
+			}
+			overHTTP := make([]bool, n)
+			for i := range overHTTP {
+				overHTTP[i] = rapid.Bool().Draw(rt, fmt.Sprintf("r%d.http%d", round, i))
+			}
+			c.j.add(map[string]interface{}{"k": "concurrent-patches", "targets": targets})
+			canon.WriteString(strings.Join(targets, "|") + ";")
+			type res struct {
+				json string
+				err  error
+				to   bool
+			}
+			out := make([]res, n)
+			var wg sync.WaitGroup
+			start := make(chan struct{})
+			for i := 0; i < n; i++ {
+				wg.Add(1)
+				go func(i int) {
+					defer wg.Done()
+					<-start
+					if overHTTP[i] {
+						rr, herr := w.env.PatchDocumentREST(w.col, k.Name, targets[i], l1Deadline)
+						if herr == nil && rr != nil && rr.Status == 200 {
+							out[i] = res{json: rr.JSON}
+							return
+						}
+						if rr != nil && rr.TimedOut {
+							out[i] = res{to: true}
+							return
+						}
+						if rr != nil && rr.Status != 404 && rr.Status != 405 {
+							out[i] = res{err: fmt.Errorf("HTTP %d: %s", rr.Status, rr.Body)}
+							return
+						}
+					}
+					r, e, to := w.env.PatchDocument(&model.PatchMessage{Collection: w.col, Key: k.Name, Json: targets[i]}, l1Deadline)
+					out[i] = res{err: e, to: to}
+					if r != nil {
+						out[i].json = r.Json
+					}
+				}(i)
+			}
+			close(start)
+			wg.Wait()
+			w.env.WaitBackground(5 * time.Second)
+			var canonTargets []string
+			for i, r := range out {
+				var tv interface{}
+				_ = json.Unmarshal([]byte(targets[i]), &tv)
+				canonTargets = append(canonTargets, sim.Canon(tv))
+				if r.to {
+					c.failf("patch %d of %d simultaneous patches of one document was never answered", i+1, n)
+				}
+				if r.err != nil {
+					c.failf("patch %d of %d simultaneous patches of one document failed: %v", i+1, n, r.err)
+				}
+				var gv interface{}
+				if err := json.Unmarshal([]byte(r.json), &gv); err != nil || sim.Canon(gv) != canonTargets[i] {
+					c.failf("patch %d of %d simultaneous patches was answered with %s, its target was %s", i+1, n, r.json, targets[i])
+				}
+			}
+			nd := 0
+			for _, dd := range w.datatypeDocs() {
+				if bstr(bget(dd, "key")) == k.Name {
+					nd++
+					k.duid, k.created = bstr(bget(dd, "_id")), true
+				}
+			}
+			if nd != 1 {
+				c.failf("%d datatype documents exist for the key after %d simultaneous patches", nd, n)
+			}
+			got, _, err := w.serverCopyJSON(k)
+			if err != nil {
+				c.failf("the server cannot rebuild the document: %v", err)
+			}
+			hit := false
+			for _, ct := range canonTargets {
+				if sim.Canon(got) == ct {
+					hit = true
+				}
+			}
+			if !hit {
+				c.failf("after %d simultaneous patches the document is none of their targets (one at a time, the last patch decides):\n  document: %s\n  targets:  %s", n, sim.Canon(got), strings.Join(canonTargets, "\n            "))
+			}
+			if err := w.checkLogInvariants(); err != nil {
+				c.failf("%v", err)
+			}
+			if cl != nil {
+				if ex := w.syncClient(cl); ex == nil || exchangeProblem(cl, ex) != nil {
+					c.failf("the subscribed client cannot sync after the patches: %v", exchangeProblem(cl, ex))
+				}
+				if gotc := sim.Canon(sim.Normalize(cl.dts[k.Name].dt.(orda.Document).GetValue())); gotc != sim.Canon(got) {
+					c.failf("the subscribed client shows %s, the server's document is %s", gotc, sim.Canon(got))
+				}
+			}
+			if n >= 3 && (exists || round > 1) {
+				many = true
+			}
+		}
+		if err := w.infraProblem(); err != nil {
+			c.failf("%v", err)
+		}
+		col.Case(many, canon.String(), []string{dep, fmt.Sprintf("exists=%v", exists)}, func() interface{} { return c.j.Header })
 	})
 }
